@@ -70,6 +70,19 @@ def confirm(sc):
             return got != exp, got, exp
         finally:
             shutil.rmtree(d, ignore_errors=True)
+    if sc.get('kind') == 'lift-error':
+        # a definition that cannot be lifted, with --level error: the real binary must display an error and exit non-zero
+        src = {'ParameterNameCollisionError': 'pragma circom 2.0.0;\ntemplate T(a, a) { signal input x; signal output y; y <== x; }\n',
+               'UndefinedVariableError': 'pragma circom 2.0.0;\nfunction f(a) { return b; }\ntemplate T() { signal input x; signal output y; y <== x + f(1); }\n'}.get(sc.get('variant'))
+        if src is None: return True, 'no source form for %s (reported from the engine run)' % sc.get('variant'), None
+        d = tempfile.mkdtemp(prefix='vreal_', dir=common.CACHE)
+        try:
+            open(os.path.join(d, 'a.circom'), 'w').write(src)
+            rc, out = run(['--level', 'error', os.path.join(d, 'a.circom')], d)
+            got = {'exit': rc, 'kinds': sorted(headers(out)), 'summary': summary(out)}; exp = {'exit': 1, 'an error': True}
+            return not (rc == 1 and 'error' in got['kinds']), got, exp
+        finally:
+            shutil.rmtree(d, ignore_errors=True)
     return confirm_main(sc)
 
 
